@@ -2,10 +2,12 @@ package checks
 
 import (
 	"fmt"
+	"time"
 
 	tq "github.com/facebookincubator/tacquito"
 
 	"verif/mc/ref"
+	"verif/mc/srvx"
 )
 
 // toImpl builds the library value for a reference message of the given layout.
@@ -154,6 +156,19 @@ func safely(f func()) (panicked string) {
 	}()
 	f()
 	return ""
+}
+
+// guarded runs f on its own goroutine, converting a panic into a string and giving up after
+// srvx.HangTimeout (hung=true; the goroutine is abandoned, the caller must stop the worker).
+func guarded(f func()) (panicked string, hung bool) {
+	done := make(chan string, 1)
+	go func() { done <- safely(f) }()
+	select {
+	case p := <-done:
+		return p, false
+	case <-time.After(srvx.HangTimeout):
+		return "", true
+	}
 }
 
 // msgJSON is a replayable rendering of a message.
